@@ -35,7 +35,9 @@ Inductive stmt :=
 | WhileFalse (b : stmt)                  (* always-false loop: one clock *)
 | Await (c : acond)
 | Break | Continue | Return
-| Call (b : stmt).                       (* await sub_coroutine() *)
+| Call (b : stmt)                        (* await sub_coroutine() *)
+| Wait (n : Z)                           (* await std.wait_for(n), n >= 1 a constant (C16) *)
+| WaitIn (allow_zero : bool).            (* await std.wait_for(self.dur [, allow_zero=True]), run-time duration *)
 
 Inductive kont :=
 | KStop
@@ -49,6 +51,7 @@ Inductive ctrl :=
 | Polling (c : cond) (k : kont)
 | Delay (k : kont)                       (* await true reached in mid-run: resume next clock *)
 | LoopHead (c : wcond) (b : stmt) (k : kont)
+| Waiting (m : Z) (k : kont)             (* m more clocks to sleep after the next one *)
 | Halted
 | Stuck.                                 (* ill-formed program (break outside loop ...) or out of fuel *)
 
@@ -65,16 +68,19 @@ Definition mw : N := 4.    (* mark output *)
 
 Record work := { w_v : Z; w_cnt : Z; w_mark : Z }.
 
-Fixpoint ceval (inp : list bool) (v : Z) (c : cond) : bool :=
+(** inputs of one clock: the condition bits and (C16) the run-time duration port *)
+Record cinp := { i_bits : list bool; i_dur : Z }.
+
+Fixpoint ceval (inp : cinp) (v : Z) (c : cond) : bool :=
   match c with
-  | CIn i => nth i inp false
+  | CIn i => nth i inp.(i_bits) false
   | CNot a => negb (ceval inp v a)
   | CAnd a b => ceval inp v a && ceval inp v b
   | COr a b => ceval inp v a || ceval inp v b
   | CVar n => v =? n
   end.
 
-Definition oceval (inp : list bool) (v : Z) (c : wcond) : bool :=
+Definition oceval (inp : cinp) (v : Z) (c : wcond) : bool :=
   match c with WTrue => true | WCond c => ceval inp v c end.
 
 Definition do_eff (k : Z) (w : work) : work :=
@@ -96,7 +102,7 @@ Fixpoint unwind_call (k : kont) : option kont :=
   end.
 
 (** [first] = nothing has been placed in the first state yet *)
-Fixpoint exec (fuel : nat) (inp : list bool) (s : stmt) (k : kont) (first : bool) (w : work) {struct fuel}
+Fixpoint exec (fuel : nat) (inp : cinp) (s : stmt) (k : kont) (first : bool) (w : work) {struct fuel}
   : ctrl * work :=
   match fuel with
   | O => (Stuck, w)
@@ -117,6 +123,11 @@ Fixpoint exec (fuel : nat) (inp : list bool) (s : stmt) (k : kont) (first : bool
           (if oceval inp w.(w_v) c then exec f inp b (KLoop c b k) false w else cont f inp k false w)
         else (LoopHead c b k, w)
     | Call b => exec f inp b (KCall k) first w
+    | Wait n => if n <=? 1 then (Delay k, w) else (Waiting (n - 2) k, w)
+    | WaitIn az =>
+        let n := inp.(i_dur) in
+        if n =? 0 then (if az then cont f inp k false w else (Stuck, w))
+        else if n =? 1 then (Delay k, w) else (Waiting (n - 2) k, w)
     | Break =>
         match unwind_loop k with
         | Some (_, _, k') => cont f inp k' false w
@@ -135,7 +146,7 @@ Fixpoint exec (fuel : nat) (inp : list bool) (s : stmt) (k : kont) (first : bool
         end
     end
   end
-with cont (fuel : nat) (inp : list bool) (k : kont) (first : bool) (w : work) {struct fuel} : ctrl * work :=
+with cont (fuel : nat) (inp : cinp) (k : kont) (first : bool) (w : work) {struct fuel} : ctrl * work :=
   match fuel with
   | O => (Stuck, w)
   | S f =>
@@ -151,13 +162,14 @@ Record rstate := { r_ctrl : ctrl; r_v : Z; r_cnt : Z; r_mark : Z }.
 
 Definition ref_fuel : nat := 4096.
 
-Definition clock (prog : stmt) (st : rstate) (inp : list bool) : rstate :=
+Definition clock (prog : stmt) (st : rstate) (inp : cinp) : rstate :=
   let w := {| w_v := st.(r_v); w_cnt := st.(r_cnt); w_mark := st.(r_mark) |} in
   let '(c', w') :=
     match st.(r_ctrl) with
     | AtStart => exec ref_fuel inp prog KStop true w
     | Polling c k => if ceval inp w.(w_v) c then cont ref_fuel inp k false w else (Polling c k, w)
     | Delay k => cont ref_fuel inp k false w
+    | Waiting m k => if m <=? 0 then (Delay k, w) else (Waiting (m - 1) k, w)
     | LoopHead c b k =>
         if oceval inp w.(w_v) c then exec ref_fuel inp b (KLoop c b k) false w
         else cont ref_fuel inp k false w
@@ -169,8 +181,9 @@ Definition clock (prog : stmt) (st : rstate) (inp : list bool) : rstate :=
 Definition rinit : rstate := {| r_ctrl := AtStart; r_v := 0; r_cnt := 0; r_mark := 0 |}.
 
 (** the reference as a transition system with the same observation type as [Sem.vstep] *)
-Definition in_bits (inp : list value) : list bool :=
-  map (fun v => match v with VL b => b | _ => false end) inp.
+Definition in_bits (inp : list value) : cinp :=
+  {| i_bits := map (fun v => match v with VL b => b | _ => false end) inp;
+     i_dur := fold_right (fun v acc => match v with VV _ _ z => z | _ => acc end) 0 inp |}.
 
 Definition ref_step (prog : stmt) (st : rstate) (inp : list value) : rstate * res (list value) :=
   let st' := clock prog st (in_bits inp) in
@@ -193,7 +206,7 @@ Proof.
 Qed.
 
 Definition ctrl_tag (c : ctrl) : Z :=
-  match c with AtStart => 0 | Polling _ _ => 1 | Delay _ => 2 | LoopHead _ _ _ => 3 | Halted => 4 | Stuck => 5 end.
+  match c with AtStart => 0 | Polling _ _ => 1 | Delay _ => 2 | LoopHead _ _ _ => 3 | Halted => 4 | Stuck => 5 | Waiting m _ => 6 + m end.
 
 Definition rhash (s : rstate) : positive :=
   Z.to_pos (1 + ctrl_tag s.(r_ctrl) + 8 * (s.(r_v) + 4 * (s.(r_cnt) + 4 * s.(r_mark)))).
